@@ -121,11 +121,13 @@ type cluster struct {
 	streams map[string]*frameStream
 	onFrame func(fr *obsFrame)
 
-	httpLog   []*simrt.HTTPReqInfo
-	httpFault func(r *simrt.HTTPReqInfo) simrt.HTTPVerdict
-	hookFn    func(g *simrt.G, name string, args ...interface{})
-	punchLag  int64                 // ms: upper bound of the per-hole delay of the background puncher (0 = eager)
-	diskArms  map[string]*clDiskArm // node name -> one-shot data-file fault (guarded by mu)
+	httpLog     []*simrt.HTTPReqInfo
+	httpFault   func(r *simrt.HTTPReqInfo) simrt.HTTPVerdict
+	hookFn      func(g *simrt.G, name string, args ...interface{})
+	punchFree   map[string]time.Duration // node -> simulated time until which the puncher's current burst runs
+	punchBursts map[string]int
+	punchLag    int64                 // ms: upper bound of the per-hole delay of the background puncher (0 = eager)
+	diskArms    map[string]*clDiskArm // node name -> one-shot data-file fault (guarded by mu)
 }
 
 type obsFrame struct {
@@ -213,13 +215,41 @@ func newCluster(w *simrt.World, res *Result, root string, rf int, size int64, nr
 		return simrt.HTTPDeliver
 	}
 	w.HookFn = func(g *simrt.G, name string, args ...interface{}) {
-		if name == "AddPunchHoleTimeout" && c.punchLag > 0 && g != nil && g.Node != nil {
-			// a lagging hole puncher: each queued hole waits a seeded while, so that punching
-			// overlaps later writes, snapshots, rebuild copies and reloads
-			n := w.Counter("punchlag:" + g.Node.Name)
-			d := time.Duration(w.Rand(fmt.Sprintf("punchlag:%s:%d", g.Node.Name, n))%uint64(c.punchLag)) * time.Millisecond
-			c.res.stat("puncher_delayed", 1)
-			simrt.Sleep(d)
+		if name == "AddPunchHoleTimeout" && g != nil && g.Node != nil {
+			// The puncher has just taken an entry from its queue.
+			// (a) jiva's drain handshake (holeDrainer sets a flag, queues an empty entry and
+			// polls the flag every second) races with it inside one quiescent step: whether
+			// the poller sees the answer at once or a second later would depend on the Go
+			// scheduler. A simulated delay makes the puncher answer after the poller's look.
+			// (b) with punchLag the delay is long, so that punching overlaps later writes,
+			// snapshots, rebuild copies and reloads.
+			// The delay is taken once per BURST of entries, not per entry: how many holes one
+			// preload queues depends on the physical extent layout the file system happened
+			// to choose, which must not leak into simulated time.
+			c.mu.Lock()
+			if c.punchFree == nil {
+				c.punchFree = map[string]time.Duration{}
+				c.punchBursts = map[string]int{}
+			}
+			node := g.Node.Name
+			now := w.Now()
+			d := time.Duration(0)
+			if now > c.punchFree[node] || c.punchBursts[node] == 0 {
+				c.punchBursts[node]++
+				d = time.Nanosecond
+				if c.punchLag > 0 {
+					d = time.Duration(1+w.Rand(fmt.Sprintf("punchlag:%s:%d", node, c.punchBursts[node]))%uint64(c.punchLag)) * time.Millisecond
+					statMu.Lock()
+					c.res.Stats["puncher_delayed"]++
+					statMu.Unlock()
+				}
+				c.punchFree[node] = now + d
+				w.TraceNote("punch-burst %s #%d delay %v", node, c.punchBursts[node], d)
+			}
+			c.mu.Unlock()
+			if d > 0 {
+				simrt.Sleep(d)
+			}
 		}
 		if c.hookFn != nil {
 			c.hookFn(g, name, args...)
@@ -228,7 +258,12 @@ func newCluster(w *simrt.World, res *Result, root string, rf int, size int64, nr
 	w.DiskFn = c.diskFn
 	w.DiskSlowFor = func(dc simrt.DiskCall) time.Duration {
 		// around the rpc deadlines (default 30 s, per-run 6..25 s): sometimes just under, sometimes well over
-		return time.Duration(2+w.Rand(fmt.Sprintf("diskslow:%s:%d", dc.Path, w.Counter("diskslow")))%58) * time.Second
+		// (keyed by node and file NAME: the path contains the scratch directory of this process)
+		node := ""
+		if dc.G != nil && dc.G.Node != nil {
+			node = dc.G.Node.Name
+		}
+		return time.Duration(2+w.Rand(fmt.Sprintf("diskslow:%s:%s:%d", node, filepath.Base(dc.Path), w.Counter("diskslow:"+node)))%58) * time.Second
 	}
 	simrt.SetNodeVarInit("replica.HoleCreatorChan", holeChanInit)
 	os.Setenv("REPLICATION_FACTOR", fmt.Sprint(rf))
